@@ -448,6 +448,30 @@ impl<'i> NsReader<&'i [u8]> {
     }
 //@end
 
+//@extract ns_reader::NsReader::read_text | src/reader/ns_reader.rs :: impl<'i> NsReader<&'i [u8]> :: fn read_text | serves=C05,C12
+ fn read_text(&mut self, end: QName) -> (r: Result<Cow<'i, str>>)
+        requires
+            old(self).inv(),
+            !(old(self).reader.state.state is Done) ==> old(self).reader.state.offset + old(self).reader.reader.remaining().len() <= u64::MAX,
+            old(self).reader.reader.remaining().len() <= usize::MAX,
+            // A-depth; C05 is stated for error-free reads of well-formed documents: stray end tags are not accepted
+            old(self).ns_resolver.nesting_level < i32::MAX - 1,
+            !old(self).reader.state.config.allow_unmatched_ends,
+            // the caller skips the element whose Start event it has just received
+            skip_domain(old(self).reader.state, end.0@),
+            old(self).reader.state.state is InsideText,
+        ensures
+            // C05: declarations stop applying once their element has ended -- also when its content was skipped
+            r is Ok ==> final(self).inv() && final(self).reader.state.stack() == old(self).reader.state.stack().drop_last(),
+ {
+        let text = self.reader.read_text(end)?;
+        // `read_text` consumed the end tag, so nobody will see an `End`
+        // event for it: leave the namespace scope of the skipped element here
+        self.ns_resolver.pop();
+        Ok(text)
+    }
+//@end
+
 //@extract ns_reader::NsReader::read_to_end | src/reader/ns_reader.rs :: impl<'i> NsReader<&'i [u8]> :: fn read_to_end | serves=C05 n11=1
  fn read_to_end(&mut self, end: QName) -> (r: Result<Span>)
         requires
